@@ -8,17 +8,29 @@
   * projections `gTable` (`ofTable` + `len`, `cap`), `gStorage`, `gTableStats`, `gArchStats`;
   * `tableStats_eq`, `tableUpdateStats_eq` — `table.Stats` / `table.UpdateStats` (which overwrites
     all four fields of the re-used entry) = the model's `tableStats`;
-  * `loop1_eq`, `loop2_eq`, `loop3_eq` — the three loops of `archetype.UpdateStats`: the in-place
-    loop over the first `cntOld` entries of the re-used slice (what lies behind them STAYS), the
-    appending loop, the free-table loop, each with the sums it accumulates;
+  * `IsRound`, `rounds_eq`, `foldl_additive1/2` — the loops of `archetype.UpdateStats` WHATEVER THEIR
+    SHAPE: a loop over the active tables is recognised by what one round does (the entry of the
+    `i`-th table is written at position `i` of the stored list — overwriting or appending — and its
+    four figures are added to the sums), the loop over the free tables by being additive; the step
+    functions of the generated definition are found by unification, never spelled;
+  * `step1`–`step3`, `loop1_eq`, `loop2_eq`, `loop3_eq` — the three loops the source had when this
+    file was written, as hand-written step functions with their closed forms (the in-place loop
+    leaves what lies behind the first `cntOld` entries: a list that is not truncated keeps its
+    stale tail); `updateStats_eq` does not go through them;
   * **`updateStats_eq`** — `archetype_UpdateStats (ofArch A) (gArchStats st) (gStorage w) =
     gArchStats (w.archStatsUpdate A st)`, WITHOUT hypothesis: a table ID that is not an index
-    of `w.tables` reads the zero table on both sides (`gTable default = default`).
+    of `w.tables` reads the zero table on both sides (`gTable default = default`).  Its proof goes
+    through for the in-place loop followed by the appending loop as well as for one merged loop
+    (`if i < cntOld`), with the free tables summed before or after, and for `table.Stats` /
+    `table.UpdateStats` defined through one another either way.
 
   The model is blind to the truncation of the re-used slice (`modelTablesNoTrunc_eq`); the
   translated source is not: with the truncation dropped from the Go function the generated
-  definition keeps the stale tail of `stats.Tables` and `updateStats_eq` is false (and no longer
-  type-checks: its proof goes through the case `cntNew < cntOld`).
+  definition keeps the stale tail of `stats.Tables` and `updateStats_eq` is false (the hypothesis
+  `st.Tables.length = max L0 lo` of `rounds_eq` fails for the first loop).
+
+  That the generated function is SYNTACTICALLY the truncation followed by `step1`, `step2`, `step3`
+  is checked apart, in Ark/Props/C19SrcShape.lean (a shape pin: it fails for every rewording).
 
   Core Lean only.
 -/
@@ -71,7 +83,15 @@ theorem tableUpdateStats_eq (T : Table) (mpe : Nat) (old : G_stats_Table) :
 theorem tableUpdateStats_eq_stats (t : G_table) (mpe : Nat) (old : G_stats_Table) :
     table_UpdateStats t mpe old = table_Stats t mpe := rfl
 
-/-! ## 3. the loops of `archetype.UpdateStats` -/
+/-! ## 3. the loops of `archetype.UpdateStats`, whatever their shape
+
+The loop bodies of the generated definition are never spelled here: a loop over the active tables is
+recognised by what one round DOES (`IsRound`: the entry of the `i`-th table is written at position
+`i` of the stored list — overwriting the slot if there is one, appending otherwise — and its four
+figures are added to the sums), the loop over the free tables by being additive.  The step
+functions are found by unification; the per-round obligations are discharged by `simp`.  So the
+proof goes through for the source with one in-place loop followed by one appending loop as well as
+for one merged loop, with the free tables summed before or after. -/
 
 /-- the state of the loops: `cap`, `count`, `memory`, `memoryUsed`, `stats` -/
 abbrev Acc := Nat × Nat × Nat × Nat × G_stats_Archetype
@@ -80,8 +100,116 @@ abbrev Acc := Nat × Nat × Nat × Nat × G_stats_Archetype
 def entry (S : G_storage) (tbls : List Nat) (mpe : Nat) (i : Nat) : G_stats_Table :=
   table_Stats (S.tables.getD (tbls.getD i 0) default) mpe
 
-/-- the body of the in-place loop (copied from the generated definition; `decompose` below checks
-    by `rfl` that it IS the generated body) -/
+/-- the four figures of the entries `g i`, `i ∈ l`, summed -/
+def sumOf (f : G_stats_Table → Nat) (g : Nat → G_stats_Table) (l : List Nat) : Nat :=
+  (l.map fun i => f (g i)).sum
+
+theorem sumOf_append (f : G_stats_Table → Nat) (g : Nat → G_stats_Table) (l₁ l₂ : List Nat) :
+    sumOf f g (l₁ ++ l₂) = sumOf f g l₁ + sumOf f g l₂ := by
+  simp [sumOf]
+
+theorem sumOf_cons (f : G_stats_Table → Nat) (g : Nat → G_stats_Table) (x : Nat) (l : List Nat) :
+    sumOf f g (x :: l) = f (g x) + sumOf f g l := by
+  simp [sumOf]
+
+/-- write `x` at position `i`: overwrite the slot when it exists, append otherwise -/
+def putAt (l : List G_stats_Table) (i : Nat) (x : G_stats_Table) : List G_stats_Table :=
+  if i < l.length then l.set i x else l ++ [x]
+
+theorem putAt_length (l : List G_stats_Table) (i : Nat) (x : G_stats_Table) (L0 : Nat)
+    (h : l.length = max L0 i) : (putAt l i x).length = max L0 (i + 1) := by
+  unfold putAt
+  split
+  · rw [List.length_set]; omega
+  · rw [List.length_append, List.length_singleton]; omega
+
+theorem putAt_take (l : List G_stats_Table) (i : Nat) (x : G_stats_Table) (h : i ≤ l.length) :
+    (putAt l i x).take (i + 1) = l.take i ++ [x] := by
+  unfold putAt
+  split
+  · next hlt =>
+    rw [List.take_set, List.take_succ_eq_append_getElem hlt,
+      List.set_append_right _ _ (by rw [List.length_take]; omega)]
+    simp [List.length_take, Nat.min_eq_left h]
+  · next hge =>
+    have : i = l.length := by omega
+    subst this
+    rw [List.take_of_length_le (by simp), List.take_of_length_le (Nat.le_refl _)]
+
+theorem putAt_drop (l : List G_stats_Table) (i k : Nat) (x : G_stats_Table) :
+    (putAt l i x).drop (i + 1 + k) = l.drop (i + 1 + k) := by
+  unfold putAt
+  split
+  · rw [List.drop_set_of_lt (by omega)]
+  · rw [List.drop_eq_nil_of_le (by simp; omega), List.drop_eq_nil_of_le (by omega)]
+
+/-- `F` is one round of a statistics loop -/
+def IsRound (S : G_storage) (tbls : List Nat) (mpe L0 : Nat) (F : Acc → Nat → Acc) (lo hi : Nat) : Prop :=
+  ∀ (c n m u : Nat) (st : G_stats_Archetype) (i : Nat), lo ≤ i → i < hi → st.MemoryPerEntity = mpe →
+    st.Tables.length = max L0 i →
+    F (c, n, m, u, st) i =
+      (c + (entry S tbls mpe i).Capacity, n + (entry S tbls mpe i).Size,
+       m + (entry S tbls mpe i).Memory, u + (entry S tbls mpe i).MemoryUsed,
+       { st with Tables := putAt st.Tables i (entry S tbls mpe i) })
+
+theorem rounds_eq (S : G_storage) (tbls : List Nat) (mpe L0 : Nat) (F : Acc → Nat → Acc) :
+    ∀ (len lo : Nat) (a : Acc), IsRound S tbls mpe L0 F lo (lo + len) →
+    a.2.2.2.2.MemoryPerEntity = mpe → a.2.2.2.2.Tables.length = max L0 lo →
+    (List.range' lo len).foldl F a =
+      (a.1 + sumOf (·.Capacity) (entry S tbls mpe) (List.range' lo len),
+       a.2.1 + sumOf (·.Size) (entry S tbls mpe) (List.range' lo len),
+       a.2.2.1 + sumOf (·.Memory) (entry S tbls mpe) (List.range' lo len),
+       a.2.2.2.1 + sumOf (·.MemoryUsed) (entry S tbls mpe) (List.range' lo len),
+       { a.2.2.2.2 with Tables := a.2.2.2.2.Tables.take lo ++
+           (List.range' lo len).map (entry S tbls mpe) ++ a.2.2.2.2.Tables.drop (lo + len) }) := by
+  intro len
+  induction len with
+  | zero =>
+    intro lo a _ _ _
+    obtain ⟨c, n, m, u, st⟩ := a
+    simp [sumOf]
+  | succ len ih =>
+    intro lo a hF hmpe hlen
+    obtain ⟨c, n, m, u, st⟩ := a
+    rw [List.range'_succ, List.foldl_cons, hF c n m u st lo (Nat.le_refl _) (by omega) hmpe hlen]
+    have hF' : IsRound S tbls mpe L0 F (lo + 1) (lo + 1 + len) :=
+      fun c n m u st i h1 h2 => hF c n m u st i (by omega) (by omega)
+    rw [ih (lo + 1) _ hF']
+    · have h1 : lo ≤ st.Tables.length := by simp only at hlen; omega
+      have h2 : lo + 1 + len = lo + (len + 1) := by omega
+      have h3 := putAt_drop st.Tables lo len (entry S tbls mpe lo)
+      rw [h2] at h3
+      simp only [sumOf_cons, Nat.add_assoc, List.map_cons, putAt_take _ _ _ h1, h3, h2,
+        List.append_assoc, List.singleton_append]
+    · exact hmpe
+    · exact putAt_length _ _ _ _ hlen
+
+
+theorem foldl_additive1 (F : Nat → Nat → Nat) (hF : ∀ (t i : Nat), F t i = t + F 0 i) (l : List Nat)
+    (t : Nat) : l.foldl F t = t + (l.map (F 0)).sum := by
+  induction l generalizing t with
+  | nil => simp
+  | cons x xs ih => rw [List.foldl_cons, ih, hF t x]; simp [Nat.add_assoc]
+
+theorem foldl_additive2 (F : Nat × Nat → Nat → Nat × Nat)
+    (hF : ∀ (c m i : Nat), F (c, m) i = (c + (F (0, 0) i).1, m + (F (0, 0) i).2)) (l : List Nat)
+    (a : Nat × Nat) :
+    l.foldl F a = (a.1 + (l.map fun i => (F (0, 0) i).1).sum,
+                   a.2 + (l.map fun i => (F (0, 0) i).2).sum) := by
+  induction l generalizing a with
+  | nil => simp
+  | cons x xs ih =>
+    obtain ⟨c, m⟩ := a
+    rw [List.foldl_cons, ih, hF c m x]; simp [Nat.add_assoc]
+
+/-! ## 3b. the three loops the source had when this file was written
+
+`step1`, `step2`, `step3` are hand-written step functions (they do not mention the generated
+`archetype_UpdateStats`), `loop1_eq`, `loop2_eq`, `loop3_eq` their closed forms.  `updateStats_eq`
+does NOT go through them. -/
+
+/-- the body of the in-place loop (as the source had it when this file was written; `Ark.Props.C19SrcShape`
+    checks by `rfl` whether it still IS the generated body — no proof here depends on that) -/
 def step1 (S : G_storage) (tables : TableIDs) : Acc → Nat → Acc :=
   fun (cap, count, memory, memoryUsed, stats) i =>
     let out_1 := (table_UpdateStats ((((S).tables).getD ((((tables).tables).getD (i) 0)) default)) ((stats).MemoryPerEntity) ((((stats).Tables).getD (i) default)))
@@ -110,35 +238,6 @@ def step3 (S : G_storage) (free : List Nat) (mpe : Nat) : Nat × Nat → Nat →
     let cap := (cap + ((((S).tables).getD (id) default)).cap)
     let memory := (memory + (mpe * ((((S).tables).getD (id) default)).cap))
     (cap, memory)
-
-/-- **the generated function is these three loops** (by `rfl`: any change of the generated
-    definition breaks this) -/
-theorem decompose (a : G_archetype) (stats : G_stats_Archetype) (S : G_storage) :
-    archetype_UpdateStats a stats S =
-      let cntNew := a.tables.tables.length
-      let p : Nat × G_stats_Archetype :=
-        if decide (cntNew < stats.Tables.length) then
-          (cntNew, { stats with Tables := stats.Tables.take cntNew })
-        else (stats.Tables.length, stats)
-      let r1 := (List.range p.1).foldl (step1 S a.tables) (0, 0, 0, 0, p.2)
-      let r2 := (List.range' p.1 (cntNew - p.1)).foldl (step2 S a.tables) r1
-      let r3 := (List.range a.freeTables.length).foldl
-        (step3 S a.freeTables r2.2.2.2.2.MemoryPerEntity) (r2.1, r2.2.2.1)
-      { r2.2.2.2.2 with FreeTables := a.freeTables.length, Capacity := r3.1, Size := r2.2.1,
-                        Memory := r3.2, MemoryUsed := r2.2.2.2.1 } := by
-  rfl
-
-/-- the four figures of the entries `g i`, `i ∈ l`, summed -/
-def sumOf (f : G_stats_Table → Nat) (g : Nat → G_stats_Table) (l : List Nat) : Nat :=
-  (l.map fun i => f (g i)).sum
-
-theorem sumOf_append (f : G_stats_Table → Nat) (g : Nat → G_stats_Table) (l₁ l₂ : List Nat) :
-    sumOf f g (l₁ ++ l₂) = sumOf f g l₁ + sumOf f g l₂ := by
-  simp [sumOf]
-
-theorem sumOf_cons (f : G_stats_Table → Nat) (g : Nat → G_stats_Table) (x : Nat) (l : List Nat) :
-    sumOf f g (x :: l) = f (g x) + sumOf f g l := by
-  simp [sumOf]
 
 /-- one round of the in-place loop, at an index inside the re-used slice -/
 theorem step1_eq (S : G_storage) (tables : TableIDs) (c n m u : Nat) (st : G_stats_Archetype)
@@ -274,24 +373,95 @@ theorem range_split' (k n : Nat) (hkn : k ≤ n) :
   congr 1
   omega
 
-/-- what the first two loops compute, started on the (possibly truncated) stored list `old` with
-    `k = min (stored length) cntNew` entries to overwrite: when `old` has exactly `k` entries the
-    result lists the `cntNew` active tables -/
-theorem loops12_eq (S : G_storage) (tables : TableIDs) (st : G_stats_Archetype) (k : Nat)
-    (hk : k = st.Tables.length) (hkn : k ≤ tables.tables.length) :
-    (List.range' k (tables.tables.length - k)).foldl (step2 S tables)
-        ((List.range k).foldl (step1 S tables) (0, 0, 0, 0, st)) =
-      (sumOf (·.Capacity) (entry S tables.tables st.MemoryPerEntity) (List.range tables.tables.length),
-       sumOf (·.Size) (entry S tables.tables st.MemoryPerEntity) (List.range tables.tables.length),
-       sumOf (·.Memory) (entry S tables.tables st.MemoryPerEntity) (List.range tables.tables.length),
-       sumOf (·.MemoryUsed) (entry S tables.tables st.MemoryPerEntity)
-         (List.range tables.tables.length),
-       { st with Tables := (List.range tables.tables.length).map
-                   (entry S tables.tables st.MemoryPerEntity) }) := by
-  rw [loop1_eq S tables k 0 0 0 0 st (by omega), loop2_eq]
-  have hdrop : st.Tables.drop k = [] := by rw [hk]; exact List.drop_length
-  simp only [hdrop, List.append_nil, Nat.zero_add, ← sumOf_append, ← List.map_append,
-    range_split' k _ hkn]
+theorem sumOf_nil (f : G_stats_Table → Nat) (g : Nat → G_stats_Table) : sumOf f g [] = 0 := rfl
+
+/-- two consecutive loops over the positions below `n` are one -/
+theorem sumOf_split (f : G_stats_Table → Nat) (g : Nat → G_stats_Table) (a n : Nat) (h : a ≤ n) :
+    sumOf f g (List.range a) + sumOf f g (List.range' a (n - a)) = sumOf f g (List.range n) := by
+  rw [← sumOf_append, range_split' a n h]
+
+theorem map_split {β : Type} (g : Nat → β) (a n : Nat) (h : a ≤ n) :
+    List.map g (List.range a) ++ List.map g (List.range' a (n - a)) = List.map g (List.range n) := by
+  rw [← List.map_append, range_split' a n h]
+
+theorem map_split_assoc {β : Type} (g : Nat → β) (a n : Nat) (h : a ≤ n) (z : List β) :
+    List.map g (List.range a) ++ (List.map g (List.range' a (n - a)) ++ z) =
+      List.map g (List.range n) ++ z := by
+  rw [← List.append_assoc, map_split g a n h]
+
+theorem drop_take_self' {β : Type} (l : List β) (n : Nat) : (l.take n).drop n = [] :=
+  List.drop_eq_nil_of_le (List.length_take_le n l)
+
+theorem drop_map_range {β : Type} (g : Nat → β) (a k : Nat) :
+    (List.map g (List.range a)).drop (a + k) = [] :=
+  List.drop_eq_nil_of_le (by simp)
+
+theorem take_map_range {β : Type} (g : Nat → β) (a : Nat) :
+    (List.map g (List.range a)).take a = List.map g (List.range a) :=
+  List.take_of_length_le (by simp)
+
+theorem sum_map_mul_left {α : Type} (xs : List α) (f : α → Nat) (k : Nat) :
+    (xs.map fun x => k * f x).sum = k * (xs.map f).sum := by
+  induction xs with
+  | nil => simp
+  | cons x xs ih => simp [ih, Nat.mul_add]
+
+/-- one round of a loop over the active tables (`IsRound`), for a step function found by
+    unification: the cases "the slot exists" / "the slot does not exist" are decided first (`i < L0`
+    with `L0` the length of the stored list after the truncation), `simp` does the rest -/
+macro "stats_round" L0:term : tactic => `(tactic| (
+  intro c n m u s i hlo hhi hmpe hlen
+  simp only [gArchStats, ofArch, List.length_take, List.length_map, Nat.zero_add] at hlo hhi hlen
+  by_cases hi : i < $L0
+  · first
+    | (exfalso; omega)
+    | (have hil : i < s.Tables.length := by omega
+       simp [putAt, entry, tableUpdateStats_eq_stats, gArchStats, ofArch, hi, hil, hmpe,
+         List.getD_eq_getElem?_getD]
+       done)
+  · first
+    | (exfalso; omega)
+    | (have hil : s.Tables.length = i := by omega
+       subst hil
+       simp [putAt, entry, tableUpdateStats_eq_stats, gArchStats, ofArch, hi, hmpe,
+         List.getD_eq_getElem?_getD]
+       done)))
+
+/-- the loop over the free tables, as a sum: over a single figure or over a pair of figures -/
+macro "stats_free" : tactic => `(tactic| (
+  try (rw [foldl_additive1]; rotate_left; (· intros; (try simp only []); omega))
+  try (rw [foldl_additive2]; rotate_left; (· intros; simp))))
+
+/-- the loops over the active tables: the first one starts at position 0; a second one, if the source
+    has one, goes on where the first one stopped -/
+macro "stats_rounds" w:term:max A:term:max st:term:max L0:term:max : tactic => `(tactic| (
+  rw [rounds_eq (gStorage $w) (Archetype.tables $A).tables (ArchStats.memoryPerEntity $st) $L0 _ _ 0]
+  rotate_left
+  · stats_round $L0
+  · simp [gArchStats]
+  · simp [gArchStats, ofArch]
+  try (
+    rw [rounds_eq (gStorage $w) (Archetype.tables $A).tables (ArchStats.memoryPerEntity $st) $L0]
+    rotate_left
+    · stats_round $L0
+    · simp [gArchStats]
+    · (simp [gArchStats, ofArch] <;> omega))))
+
+/-- the sums and the list of the entries, in the model's terms: consecutive loops are joined
+    (`hle`: the stored list, after the truncation, is not longer than the list of active tables),
+    what is left of the stored list behind the active tables is empty (`hZ`) -/
+macro "stats_finish" w:term:max hfree:term:max hle:term:max hZ:term:max : tactic => `(tactic| (
+  simp only [← List.range_eq_range', Nat.zero_add, Nat.add_zero, List.take_zero, List.nil_append,
+    List.append_nil, gArchStats, ofArch, List.length_map, List.length_take, Nat.sub_self,
+    List.range'_zero, List.map_nil, sumOf_nil, drop_take_self', $hZ:term, drop_map_range, take_map_range, Nat.le_refl,
+    Nat.le_add_right, $hle:term,
+    map_split _ _ _ $hle, map_split_assoc _ _ _ $hle, sumOf_split _ _ _ _ $hle, sum_map_mul_left]
+  all_goals try simp only [entries_eq, $hfree:term,
+    sumOf_entries $w _ _ (·.Capacity) (·.capacity) (fun _ => rfl),
+    sumOf_entries $w _ _ (·.Size) (·.size) (fun _ => rfl),
+    sumOf_entries $w _ _ (·.Memory) (·.memory) (fun _ => rfl),
+    sumOf_entries $w _ _ (·.MemoryUsed) (·.memoryUsed) (fun _ => rfl)]
+  all_goals simp [Nat.add_comm]))
 
 /-- **`archetype.UpdateStats`, as translated from the source, is the model's `archStatsUpdate`** —
     for every world, every archetype and EVERY stored object (more, fewer or as many table
@@ -300,7 +470,6 @@ theorem loops12_eq (S : G_storage) (tables : TableIDs) (st : G_stats_Archetype) 
 theorem updateStats_eq (w : World) (A : Archetype) (st : ArchStats) :
     archetype_UpdateStats (ofArch A) (gArchStats st) (gStorage w) =
       gArchStats (w.archStatsUpdate A st) := by
-  rw [decompose]
   -- the model side
   have hmodel : gArchStats (w.archStatsUpdate A st) =
       { Tables := (A.tables.tables.map fun t => tableStats (w.tbl t) st.memoryPerEntity).map
@@ -317,7 +486,7 @@ theorem updateStats_eq (w : World) (A : Archetype) (st : ArchStats) :
         FreeTables := A.freeTables.length } := by
     simp only [gArchStats, archStatsUpdate, map_take_append_map_drop, foldl_add_zero]
   rw [hmodel]
-  -- the free-table loop
+  -- the free tables
   have hfree : ((List.range A.freeTables.length).map fun i =>
       ((gStorage w).tables.getD (A.freeTables.getD i 0) default).cap) =
       A.freeTables.map fun t => (w.tbl t).cap := by
@@ -326,48 +495,25 @@ theorem updateStats_eq (w : World) (A : Archetype) (st : ArchStats) :
       funext i; rw [gStorage_getD]; rfl
     rw [h]
     exact range_map_getD' (fun t => (w.tbl t).cap) A.freeTables
-  -- the first two loops, after the truncation
-  have h12 : ∀ (old : G_stats_Archetype) (k : Nat), k = old.Tables.length →
-      k ≤ A.tables.tables.length → old.MemoryPerEntity = st.memoryPerEntity →
-      (List.range' k (A.tables.tables.length - k)).foldl (step2 (gStorage w) A.tables)
-          ((List.range k).foldl (step1 (gStorage w) A.tables) (0, 0, 0, 0, old)) =
-        (((A.tables.tables.map fun t => tableStats (w.tbl t) st.memoryPerEntity).map
-            (·.capacity)).sum,
-         ((A.tables.tables.map fun t => tableStats (w.tbl t) st.memoryPerEntity).map (·.size)).sum,
-         ((A.tables.tables.map fun t => tableStats (w.tbl t) st.memoryPerEntity).map
-            (·.memory)).sum,
-         ((A.tables.tables.map fun t => tableStats (w.tbl t) st.memoryPerEntity).map
-            (·.memoryUsed)).sum,
-         { old with Tables := (A.tables.tables.map fun t =>
-             tableStats (w.tbl t) st.memoryPerEntity).map gTableStats }) := by
-    intro old k hk hkn hmpe
-    rw [loops12_eq _ _ _ _ hk hkn, hmpe, entries_eq,
-      sumOf_entries w _ _ (·.Capacity) (·.capacity) (fun _ => rfl),
-      sumOf_entries w _ _ (·.Size) (·.size) (fun _ => rfl),
-      sumOf_entries w _ _ (·.Memory) (·.memory) (fun _ => rfl),
-      sumOf_entries w _ _ (·.MemoryUsed) (·.memoryUsed) (fun _ => rfl)]
-  show (let cntNew := A.tables.tables.length
-    let p : Nat × G_stats_Archetype :=
-      if decide (cntNew < (gArchStats st).Tables.length) then
-        (cntNew, { gArchStats st with Tables := (gArchStats st).Tables.take cntNew })
-      else ((gArchStats st).Tables.length, gArchStats st)
-    let r1 := (List.range p.1).foldl (step1 (gStorage w) A.tables) (0, 0, 0, 0, p.2)
-    let r2 := (List.range' p.1 (cntNew - p.1)).foldl (step2 (gStorage w) A.tables) r1
-    let r3 := (List.range A.freeTables.length).foldl
-      (step3 (gStorage w) A.freeTables r2.2.2.2.2.MemoryPerEntity) (r2.1, r2.2.2.1)
-    ({ r2.2.2.2.2 with FreeTables := A.freeTables.length, Capacity := r3.1, Size := r2.2.1,
-                       Memory := r3.2, MemoryUsed := r2.2.2.2.1 } : G_stats_Archetype)) = _
-  by_cases hlt : A.tables.tables.length < (gArchStats st).Tables.length
+  -- what is left of the stored list behind the active tables, after the truncation: nothing
+  have hdrop : ∀ (k : Nat), st.tables.length ≤ k → List.drop k (List.map gTableStats st.tables) = [] :=
+    fun k hk => List.drop_eq_nil_of_le (by rw [List.length_map]; exact hk)
+  unfold archetype_UpdateStats
+  by_cases hlt : A.tables.tables.length < st.tables.length
   · -- FEWER active tables than stored entries: the truncation
-    simp only [hlt, decide_true, if_true]
-    rw [h12 _ _ (by simp only [List.length_take]; omega) (Nat.le_refl _) rfl]
-    simp only [loop3_eq, hfree]
-    rfl
+    have hlt' : (ofArch A).tables.tables.length < (gArchStats st).Tables.length := by
+      simpa [ofArch, gArchStats] using hlt
+    simp only [hlt', decide_true, if_true, List.range_eq_range']
+    stats_free
+    stats_rounds w A st (min A.tables.tables.length st.tables.length)
+    stats_finish w hfree (Nat.le_refl A.tables.tables.length) (drop_take_self' (β := G_stats_Table))
   · -- at least as many
-    simp only [hlt, decide_false, Bool.false_eq_true, if_false]
-    rw [h12 _ _ rfl (by omega) rfl]
-    simp only [loop3_eq, hfree]
-    rfl
+    have hlt' : ¬ (ofArch A).tables.tables.length < (gArchStats st).Tables.length := by
+      simpa [ofArch, gArchStats] using hlt
+    simp only [hlt', decide_false, Bool.false_eq_true, if_false, List.range_eq_range']
+    stats_free
+    stats_rounds w A st st.tables.length
+    stats_finish w hfree (Nat.le_of_not_lt hlt) hdrop
 
 /-! ## 5. consequences -/
 
